@@ -40,3 +40,15 @@ var N1Ran int
 
 //go:noinline
 func N1(a int) { N1Ran += work(a) + 1 }
+
+// typed signatures for the conditional-stub pipeline: a string and a pointer (compared by pointee), strings in a variadic tail
+type P struct {
+	N int
+	S string
+}
+
+//go:noinline
+func T2(a string, p *P) int { return work(len(a)) + 800 }
+
+//go:noinline
+func TV(a string, xs ...string) int { return work(len(a)) + work(len(xs)) + 900 }
